@@ -18,7 +18,8 @@ fn determinism<T: Dom>(outer: VK, inner: Option<VK>, k: usize, extra_last: Vec<u
     first_poll.sort_unstable(); first_poll.dedup();
     let mut unpolled: Vec<DynV<T>> = first_poll.iter().map(|_| mk::<T>(&outer, &inner)).collect();
     // clones of `a` taken after steps 0, 1, k/2 and the seed-chosen step, fed every later input
-    let mut clone_steps = vec![0usize, 1, k / 2, clone_at];
+    let mut clone_steps = vec![0usize, 1, k / 2, clone_at, (k + 1) / 2 + 1, (k + 1) / 2 + 2];
+    clone_steps.retain(|s| *s + 1 < k);
     clone_steps.sort_unstable(); clone_steps.dedup();
     let mut clones: Vec<(usize, DynV<T>)> = vec![];
     let mut d: Option<DynV<T>> = None;   // clone of `a`, starved for two steps, then caught up
@@ -47,6 +48,24 @@ fn determinism<T: Dom>(outer: VK, inner: Option<VK>, k: usize, extra_last: Vec<u
             T::oblige(&format!("{name} t={t}: a fresh clone reports the identical value"), opt_ident(a.last(), cl.last()));
             clones.push((t, cl));
             if t == clone_at { let dd = a.clone(); d_frozen = Some(dd.last()); d = Some(dd); }
+        }
+    }
+}
+/// counters narrower than usize: a twin polled once early and then left alone for exactly `gap` updates (256 = u8, 65536 = u16 wrap)
+/// must answer like a twin that was never polled and like one polled one step later. The stream cycles through three symbolic values.
+fn silent_gap<T: Dom>(vk: VK, s0: usize, gap: usize) {
+    let positive = vk.needs_positive();
+    let vals: Vec<T> = (0..3).map(|i| { let x = T::input(&format!("{}x{i}", if positive { "pos" } else { "" })); if positive { T::assume(lt(T::zero(), x)); } x }).collect();
+    let (mut a, mut b, mut c) = (mk::<T>(&vk, &None), mk::<T>(&vk, &None), mk::<T>(&vk, &None));
+    for t in 0..s0 + gap + 2 {
+        let x = vals[t % 3];
+        a.update(x); b.update(x); c.update(x);
+        if t + 1 == s0 { let _ = b.last(); }
+        if t == s0 { let _ = c.last(); }
+        if t + 1 == s0 + gap || t + 1 == s0 + gap + 1 || t + 1 == s0 + gap + 2 {
+            let want = a.last();
+            T::oblige(&format!("{} after {} updates: a twin polled at step {s0} and then left alone for {gap} updates reports the identical value", vk.name(), t + 1), opt_ident(want, b.last()));
+            T::oblige(&format!("{} after {} updates: a twin polled at step {} and then left alone reports the identical value", vk.name(), t + 1, s0 + 1), opt_ident(want, c.last()));
         }
     }
 }
@@ -130,6 +149,17 @@ pub fn units(tier: Tier, seed: u64) -> Vec<Unit> {
             u.push(unit!(format!("C17/clone-isolated/{}/k={ki}/clone@{}", vk.name(), clone_at.min(ki - 1)), clone_isolated(vk.clone(), ki, clone_at.min(ki - 1))));
         }
     }
+    // silent gaps of 256 and 65536 updates between two polls (wrapping stamps / epochs)
+    {
+        let mut seen = std::collections::HashSet::new();
+        for vk in wrappers(3) {
+            if !seen.insert(vk.name()) { continue; }
+            if matches!(vk, VK::TrendFlex(_) | VK::ReFlex(_)) { continue; } // a nonlinear comparison per update: 256 of them on one path exceed the budget
+            let s0 = match &vk { VK::Roofing(a, b) => a + b + 2, _ => 5 };
+            let mut x = unit!(format!("C17/silent-gap/{}/gap=256", vk.name()), silent_gap(vk.clone(), s0, 256usize)); x.concolic = Some(seed + 41); x.max_decisions = 400000; x.budget_s = 30.0; u.push(x);
+            if !matches!(vk, VK::LaguerreRSI(_) | VK::Vsct(_) | VK::Vst(_) | VK::WelfordOnline(_) | VK::WelfordRolling) { /* those five build a nonlinear term that grows with every update */ let mut y = unit!(format!("C17/silent-gap/{}/gap=65536", vk.name()), silent_gap(vk.clone(), s0, 65536usize)); y.concolic = Some(seed + 42); y.max_decisions = 4000000; y.budget_s = 30.0; u.push(y); }
+        }
+    }
     // interference between live instances
     {
         let mut seen = std::collections::HashSet::new();
@@ -173,7 +203,7 @@ pub fn units(tier: Tier, seed: u64) -> Vec<Unit> {
 pub fn meta() -> Meta {
     Meta {
         functions: vec!["two live instances of every view fed different streams (interference)", "every view of the crate ::{new,update,last,clone} (catalogue in engine/src/views.rs), over Echo and in seeded two-level chains"],
-        bounds: "N in {2,3} (quick: N=3 only for the views with few comparisons per step), raised to the view's minimum; k = 2N+3 (<= 6 for heavily branching views); twins first polled only at steps 1, 2, 3, k/2 and k-1; clones taken after steps 0, 1, k/2 and a VERIF_SEED-chosen step; VERIF_SEED also chooses the pattern of extra last() calls (0..3 per step); 16 / 80 seeded two-level chains; all comparison outcomes up to 6000 paths per unit",
+        bounds: "N in {2,3} (quick: N=3 only for the views with few comparisons per step), raised to the view's minimum; k = 2N+3 (<= 6 for heavily branching views); twins first polled only at steps 1, 2, 3, k/2 and k-1; clones taken after steps 0, 1, k/2, k/2+1, k/2+2 (after one and two evictions) and a VERIF_SEED-chosen step; twins polled once and then left alone for exactly 256 and 65536 updates (N=3, a stream cycling through three symbolic values, sampled path; without TrendFlex/ReFlex, and the 65536 gap without LaguerreRSI/Vst/Vsct/WelfordOnline/WelfordRolling); VERIF_SEED also chooses the pattern of extra last() calls (0..3 per step); 16 / 80 seeded two-level chains; all comparison outcomes up to 6000 paths per unit",
         outside: vec!["Add (does not implement Clone): twin and purity obligations only via C14/C01", "chains deeper than two, N > 3"],
         assumptions: vec!["term identity: identical terms are bit-identical in every float format; where two outputs are equal in the reals but not term-identical this is counted separately in the evidence (equal_in_reals_only)"],
     }
